@@ -9,7 +9,7 @@ CONSTANTS
  BLK = 2
  BUFSZ = 12
  Delim = 63
- NoVal = -1
+ NoVal <- NoValMC
  Rcv = 1
  Prog <- ProgArr
  MaxFault = 0
